@@ -33,7 +33,7 @@ ASSUMPTIONS = ["programs are straight-line (no loops), so the expected log is co
 CASES = {"quick": 250, "thorough": 6000}
 NSHARDS = 16
 
-CONSTRUCTS = ["new", "unannotated", "ctxcopy", "old", "none", "disabled", "dataclass", "method", "classmethod", "staticmethod", "property", "with", "recursion", "generator", "coroutine", "nonbinding", "wrapstack"]
+CONSTRUCTS = ["new", "unannotated", "ctxcopy", "old", "none", "disabled", "dataclass", "method", "classmethod", "staticmethod", "property", "with", "recursion", "generator", "coroutine", "nonbinding", "wrapstack", "oldgen"]
 EXITS = ["return", "Exception", "KeyboardInterrupt", "GeneratorExit", "SystemExit", "BadNotes"]
 RAISE = {"Exception": "raise ValueError('x')", "KeyboardInterrupt": "raise KI()", "GeneratorExit": "raise GeneratorExit()", "SystemExit": "raise SE(3)", "BadNotes": "raise BADNOTES[len(LOG) % 3]()"}
 
@@ -402,6 +402,30 @@ class Gen:
                     self.expected.append((j2 * 1000 + lv, "obs", self.tr()))
                 self.stack.pop()
             return self.call_site(ind, i, f"r_{i}(A({size}), {levels})", prop, depth)
+        if c == "oldgen":
+            # the old double-decorator spelling on a generator function whose annotation has all three slots
+            # (Generator[Yield, Send, Return]) with axis names of their own: whoever drives the generator later, in
+            # whatever scope, neither sees those names nor has its own bindings compared with them
+            j1, j2 = self.new_id(), self.new_id()
+            self.emit(ind, "@jaxtyped")
+            self.emit(ind, "@typeguard_tc")
+            self.emit(ind, f'def og_{i}(x: {ann}, n: int) -> typing.Generator[Shaped[np.ndarray, "a"], Shaped[np.ndarray, "b"], Shaped[np.ndarray, "c"]]:')
+            self.emit(ind + 1, "got = yield A(7)")
+            self.emit(ind + 1, "return A(9)")
+            self.emit(ind, f"ogit_{i} = og_{i}(A({size}), {nval})")
+            self.emit(ind, f"obs({j1})")
+            self.expected.append((j1, "obs", self.tr()))
+            self.emit(ind, "try:")
+            self.emit(ind + 1, f"next(ogit_{i})")
+            self.emit(ind + 1, f"ogit_{i}.send(A(8))")
+            self.emit(ind, "except StopIteration:")
+            self.emit(ind + 1, "pass")
+            self.emit(ind, f"obs({j2})")
+            self.expected.append((j2, "obs", self.tr()))
+            self.pairs.add(("oldgen", "return"))
+            for e_ in EXITS:
+                self.pairs.add(("oldgen", e_))  # (no body of its own: the exit kinds do not apply)
+            return None
         if c in ("generator", "coroutine"):
             style = self.rng.choice(("new", "none"))
             self.emit(ind, f"@jaxtyped(typechecker={tc if style == 'new' else 'None'})")
